@@ -289,7 +289,8 @@ Proof. exact (conj ex_spawned_reachable (conj ex_ranked (conj ex_round1_run ex_m
    on the rank through [E_unfold]) that both writes store the from-scratch value
    [E Q rank cur k]; CFetch2/ProofsSim.v turns that into a step-by-step refinement of CFetch with
    [p_val := E], so every theorem above transfers.  Hypotheses: calls descend along a rank
-   ([ranked2]); input stamps are honest ([stamps_ok]: the value did not change since the stamp).
+   ([ranked2]); input stamps are honest ([stamps_ok]: the value did not change since the stamp, and a stamp
+   is not above the revision it is read in).
    Fragment: static call lists, no durability short-cut (LOW durabilities, as C01). *)
 Theorem C16_values_computed :
   forall fuel Q rank s2,
